@@ -35,7 +35,7 @@ def main(argv: list[str]) -> int:
     spec = registry.REGISTRY[pid]
     ctx = framework.Ctx(pid, common.tier(), common.seed())
     try:
-        b = framework.build(pid, spec["modules"], list(spec["theorems"]) + list(spec.get("table_theorems", [])))
+        b = framework.build(pid, spec["modules"], list(spec["theorems"]) + list(spec.get("table_theorems", [])), ctx.tier)
         if not b.driver_ok:
             print("tooling failure: the model or its driver does not build\n" + b.log[-3000:])
             return 2
